@@ -34,4 +34,8 @@ theorem is_recent_iff (created ttl now : Int) :
     Zc.Gen.Dns.is_recent created ttl now = true ↔ now < created + 250 * ttl := by
   simp [Zc.Gen.Dns.is_recent]
 
+/-- the scan of the packets already deferred for an address compares the **bytes** of the two datagrams -/
+theorem deferred_same_packet_iff (b : Bool) : deferred_same_packet b = b := by
+  simp [deferred_same_packet]
+
 end Zc.GenFacts.Listener
